@@ -292,10 +292,16 @@ def purge_bounds():
 def regen(ctx):
     c = probe_consts()
     _consts.update(c)
-    pb = purge_bounds()
-    check_critical_sections()
-    fb_top, fb_low = find_bin_consts()
-    served = dispatch_tests()
+    # everything that feeds the generated file first; if one of these translators rejects the source, the file of an
+    # earlier (different) tree must not stay behind as if it were current: it is replaced by a stub that does not build
+    try:
+        pb = purge_bounds()
+        fb_top, fb_low = find_bin_consts()
+        served = dispatch_tests()
+    except GenError as e:
+        write_if_changed(os.path.join(LEAN, "AwsVerif", "Gen", "SbaConsts.lean"),
+                         "/-! GENERATED by props/c03.py: the translator rejected the current source -/\n#check (translator_rejected_the_source : Nat)\n")
+        raise
     lean = f"""/-! GENERATED by props/c03.py from /repo's source/allocator_sba.c (compiled sizeof/offsetof probe + source text) — do not edit. -/
 namespace AwsVerif.Gen.SbaConsts
 
@@ -338,6 +344,7 @@ instance (chunk pageStart pageEnd : Nat) : Decidable (purgeHit chunk pageStart p
 end AwsVerif.Gen.SbaConsts
 """
     write_if_changed(os.path.join(LEAN, "AwsVerif", "Gen", "SbaConsts.lean"), lean)
+    check_critical_sections()     # a pure shape check: after the file is written, so that the file is always current
     # findBin is written over the generated math functions (shared with C16): regenerate them too
     from gen import math_gen, cfun
     try:
@@ -669,6 +676,11 @@ def case_huge(rng):
             b.acq(rng.choice(SIZES))
         elif b.live:
             b.rel(rng.randrange(len(b.live)))
+    # page-aligned parent blocks whose own data carries ONE tag word at the place of a page header: still the parent's
+    for e in [e for e in b.live if 2**20 < e[1] <= 2**41]:
+        if rng.random() < 0.7:
+            b.live.remove(e)
+            b.ops.append(f"reltag {e[0]} {rng.choice([1, 2])}")
     b.tags["huge"] = 1
     b.release_all(rng.choice(ORDERS))
     return b.finish()
@@ -744,7 +756,7 @@ def gen_cases(rng, tier):
         cases.append(case_huge(rng))
     cases.append(Case(["new mt=0 fake", "acq p1 32", "acq p2 4294967301", "acq p3 2147483649", "realloc p1 32 4294967296",
                        "realloc p1 4294967296 4294967328", "calloc p9 2305843009213693953 8", "calloc p8 4294967296 4294967296",
-                       "acq p4 HALF", "active", "rel p4", "rel p2", "rel p3", "realloc p1 4294967328 16", "rel p1", "destroy"], {"huge": 1}))
+                       "acq p4 HALF", "active", "rel p4", "reltag p2 1", "reltag p3 2", "realloc p1 4294967328 16", "rel p1", "destroy"], {"huge": 1}))
     cases += fullpage_cases(rng, tier)
     cases += exhaustive_cases(4 if quick else 6)
     if not quick:
@@ -905,7 +917,7 @@ def oracle(case, lines):
                     cls = cls_of(new) if idn else 0
                 live[t[1]] = dict(size=new, ident=idn, cls=cls)
             status(op)
-        elif t[0] == "rel":
+        elif t[0] in ("rel", "reltag"):
             if t[1] not in live:
                 nxt()
                 continue
